@@ -296,6 +296,32 @@ func init() {
 						"registered": []string{`RegisterGlobal("vgplain", "vgalias", "G<1>")`, `RegisterGlobalNS("vg", "greeting", "hi", "G<2>")`, `RegisterModFnNS("vns", "cat", "c", vcat)`, `RegisterModFn("vcatplain", "vcp", vcat)`}})
 			}
 		}
+		// the CALL form without `=` — `{% mod(args) %}` — has no escape directive: it renders what `{%= mod(args) %}` renders,
+		// whatever letters the NAME of the modifier is made of (default = d-e-f-a-u-l-t …) — a relation on the real engine alone
+		for _, call := range []string{`default(v)`, `default(e, v)`, `def(v)`, `vcat(v, "<a>")`, `vcatplain(v)`, `vns::cat(v)`, `jsonQuote(v)`, `htmlEscape(v)`, `urlEncode(v)`, `ifThenElse(t, v, e)`, `vletters(v)`, `testns::pack(v)`} {
+			var outs [2]rendered
+			bad := ""
+			srcs := [2]string{`[{% ` + call + ` %}]`, `[{%= ` + call + ` %}]`}
+			for k := 0; k < 2; k++ {
+				key, err, pan := regTpl(srcs[k], true)
+				if err != nil || pan != "" {
+					bad = fmt.Sprintf("Parse rejects %s: %v %s", srcs[k], err, pan)
+					break
+				}
+				ctx := dyntpl.NewCtx()
+				ctx.SetString("e", "")
+				ctx.SetString("v", "a b<\"&1>")
+				ctx.SetStatic("t", true)
+				outs[k] = renderSafe(key, ctx)
+			}
+			sig := "call-form-without-directive " + call
+			r.Count(sig, true)
+			r.Dist["call-form-without-directive"]++
+			if bad != "" || outs[0].ErrStr() != outs[1].ErrStr() || !bytes.Equal(outs[0].Out, outs[1].Out) {
+				r.Violate(sig, "the call form {% mod(args) %} renders something else than {%= mod(args) %}: letters of the modifier's name were taken for an escape directive",
+					map[string]any{"call_form": srcs[0], "print_form": srcs[1], "call_form_output": string(outs[0].Out), "print_form_output": string(outs[1].Out), "call_form_error": outs[0].ErrStr(), "print_form_error": outs[1].ErrStr(), "problem": bad})
+			}
+		}
 		// more relations of the same kind, each with the expected text where the property gives it: a QUOTED literal is a
 		// literal also when its text names a global; default substitutes for every kind of empty value (typed nil
 		// pointers, a nil struct pointer, a nil map, an empty slice of structs); a modifier that looks another variable up
